@@ -107,7 +107,7 @@ func Replay(path string) (bool, error) {
 			default:
 				op = m.Op{K: w.Op, Q: &q}
 				if w.Op == "update" {
-					op.Set = map[string]interface{}{"u": int64(1), "y": "upd"}
+					op.Set = map[string]interface{}{"u": int64(1), "y": "upd", "n.a": int64(42)}
 				}
 				if w.Op == "updateFunc" {
 					op.Upd = &m.Updater{Set: map[string]interface{}{"u": int64(2), "x": int64(7)}, Style: "inplace"}
